@@ -432,11 +432,68 @@ def r15e(ctx, run):
               "follows:LocalGlobal", fn.file, m["ln"], "get_const must queue the global's body in the file of the expression being classified (`loc`), found provenance %s" % sorted(pv))
 
 
+def r15f(ctx, run):
+    """the value a comptime parameter evaluates to is the comptime argument at the parameter's position AMONG THE COMPTIME PARAMETERS: wherever the
+    evaluator or the type evaluator index `comptime_args()` (directly or through a helper), the index is the `comptime_idx` field of the
+    Expr::ComptimeParam being evaluated - resolved lexically, not by the spelling of locals (`real_idx` counts run-time parameters too)"""
+    import prov
+    F = "hir_ty/src/globals.rs"
+    fns = [f for f in ctx.syn.fns_in(F) if f.body is not None and not f.in_test]
+    by_name = {}
+    for f in fns:
+        by_name.setdefault(f.qual.rsplit("::", 1)[-1], []).append(f)
+    sites = []      # (fn, line, tags)
+
+    def index_sites(f):
+        P = prov.Prov(f)
+        out = []
+
+        def on(n, sc):
+            if n.get("k") == "mcall" and n["m"] == "nth" and "comptime_args()" in canon(n["r"]) and n["a"]:
+                out.append((n, P.tags(n["a"][0], sc)))
+        P.visit(on)
+        return P, out
+    n_direct = 0
+    for f in fns:
+        if "comptime_args()" not in canon(f.body):
+            continue
+        P, out = index_sites(f)
+        for n, tags in out:
+            n_direct += 1
+            params = [t for t in tags if t.startswith("param:")]
+            if params and not [t for t in tags if t.startswith("field:")]:
+                # a helper indexed by its parameter: the obligation moves to every caller
+                pname = params[0].split(":", 1)[1]
+                pos = f.param_names().index(pname) - (1 if f.param_names()[0] == "self" else 0)
+                hname = f.qual.rsplit("::", 1)[-1]
+                for g in fns:
+                    if hname not in canon(g.body) or g is f:
+                        continue
+                    PG = prov.Prov(g)
+
+                    def on2(m, sc, PG=PG, g=g):
+                        if m.get("k") == "mcall" and m["m"] == hname and len(m["a"]) > pos:
+                            sites.append((g, m["ln"], PG.tags(m["a"][pos], sc), "through %s" % hname))
+                    PG.visit(on2)
+            else:
+                sites.append((f, n["ln"], tags, "directly"))
+    if n_direct < 1 or len(sites) < 2:
+        raise LookupError("sites indexing comptime_args(): %d direct, %d obligations" % (n_direct, len(sites)))
+    for f, ln, tags, how in sites:
+        fields = sorted(t for t in tags if t.startswith("field:"))
+        good = fields == ["field:ComptimeParam.comptime_idx"] and "arith" not in tags
+        run.check(good, f.site(ln), "%s indexes the comptime arguments (%s) by ComptimeParam.comptime_idx" % (f.qual, how), f.qual, "comptime-arg-index", f.file, ln,
+                  "%s indexes comptime_args() (%s) by %s: the comptime argument of a parameter is found at its position among the comptime parameters "
+                  "(`comptime_idx`); any other index evaluates the parameter to another argument's value whenever a run-time parameter is declared before it"
+                  % (f.qual, how, fields or sorted(tags)))
+
+
 def rules(ctx):
     return [
         Rule("R15.a", "every const position asks get_const first; non-const is reported and not evaluated", 7, r15a),
         Rule("R15.b", "get_const's classification per expression kind follows the documented rule (mutable/extern/valueless/transitive)", 60, r15b),
         Rule("R15.d", "finish_body: no normal return bypasses the constness test of a global's body (must-pass-through on MIR)", 1, r15d),
         Rule("R15.e", "classifier and evaluator follow a global reference from the location of the expression itself, not from the location under inference", 3, r15e),
+        Rule("R15.f", "a comptime parameter evaluates to the comptime argument at its comptime_idx (lexically resolved index of every comptime_args() lookup)", 2, r15f),
         Rule("R15.c", "classifier and evaluator agree: Const integer-capable kinds have value-producing const_data arms", 8, r15c),
     ]
